@@ -46,7 +46,25 @@ def _scope_stmts(f: Func, dec: ast.Assign) -> List[ast.stmt]:
     return []
 
 
+def _is_product_root(n) -> bool:
+    def is_prod(x):
+        if isinstance(x, ast.BinOp) and isinstance(x.op, ast.MatMult):
+            return True
+        if isinstance(x, ast.Call) and (dotted(x.func) or "") in ("np.dot", "numpy.dot", "np.matmul", "numpy.matmul") and len(x.args) == 2:
+            return True
+        return False
+    if not is_prod(n):
+        return False
+    par = getattr(n, "_parent", None)
+    # nested inside another product (directly, or as an argument of np.dot / through .T / .conj())
+    while par is not None and isinstance(par, (ast.Attribute,)) or (isinstance(par, ast.Call) and isinstance(par.func, ast.Attribute)
+                                                                     and par.func.attr in ("conj", "conjugate", "transpose") and not par.args):
+        par = getattr(par, "_parent", None)
+    return not is_prod(par)
+
+
 def check(f: Func) -> List[Finding]:
+    from .astutil import clone
     out: List[Finding] = []
     for dec, routine, w, V in decompositions(f):
         stmts = _scope_stmts(f, dec)
@@ -54,33 +72,76 @@ def check(f: Func) -> List[Finding]:
         uses_V = [n for n in nodes if isinstance(n, ast.Name) and n.id == V and isinstance(n.ctx, ast.Load)]
         if not uses_V:
             continue
-        # D = np.diag(w) names
-        diag_names = {}
-        for s in stmts:
-            for n in ast.walk(s):
-                if isinstance(n, ast.Assign) and len(n.targets) == 1 and isinstance(n.targets[0], ast.Name) and isinstance(n.value, ast.Call) \
-                        and (dotted(n.value.func) or "").endswith("diag") and n.value.args and unparse(n.value.args[0]) == w:
-                    diag_names[n.targets[0].id] = n
-        handled = set()
-        # (a) reconstructions: matrix products containing V
+        # locals of the scope: name -> value, for names bound once and never updated in place
+        bound, dirty = {}, set()
         for n in nodes:
-            if isinstance(n, ast.BinOp) and isinstance(n.op, ast.MatMult) and not isinstance(getattr(n, "_parent", None), ast.BinOp):
-                p = product(n)
-                if not any(b == V for b, _, _ in p):
-                    continue
-                for x in ast.walk(n):
+            if isinstance(n, ast.Assign) and len(n.targets) == 1:
+                t = n.targets[0]
+                if isinstance(t, ast.Name):
+                    if t.id in bound:
+                        dirty.add(t.id)
+                    bound[t.id] = n.value
+                else:
+                    b = t
+                    while isinstance(b, (ast.Subscript, ast.Attribute)):
+                        b = b.value
+                    if isinstance(b, ast.Name):
+                        dirty.add(b.id)
+            elif isinstance(n, ast.AugAssign):
+                b = n.target
+                while isinstance(b, (ast.Subscript, ast.Attribute)):
+                    b = b.value
+                if isinstance(b, ast.Name):
+                    dirty.add(b.id)
+        # D = np.diag(w) names (these are updated in place by the clipping, so they stay names)
+        diag_names = {}
+        for nm, v in bound.items():
+            if isinstance(v, ast.Call) and (dotted(v.func) or "").endswith("diag") and v.args and unparse(v.args[0]) == w:
+                diag_names[nm] = v
+        pure = {k: v for k, v in bound.items() if k not in dirty and k not in diag_names and k not in (V, w)}
+
+        class _Inl(ast.NodeTransformer):
+            def __init__(self, depth=6):
+                self.depth = depth
+
+            def visit_Name(self, n):
+                if isinstance(n.ctx, ast.Load) and n.id in pure and self.depth > 0 and any(
+                        isinstance(x, ast.Name) and x.id in (V, w) or isinstance(x, ast.Name) and x.id in pure for x in ast.walk(pure[n.id])):
+                    return _Inl(self.depth - 1).visit(clone(pure[n.id]))
+                return n
+        handled = set()
+        # names of pure locals that stand for (a transform of) V: uses of V inside their definitions are accounted for
+        # at the place where the local is used
+        for nm, v in pure.items():
+            if all(isinstance(x, (ast.Name, ast.Attribute, ast.Call, ast.Load)) or not isinstance(x, ast.AST) for x in ast.walk(v)) and len(product(v)) == 1 \
+                    and product(v)[0][0] == V:
+                for x in ast.walk(v):
                     if isinstance(x, ast.Name) and x.id == V:
                         handled.add(id(x))
-                ok = len(p) == 3 and p[0] == (V, False, False) and is_adjoint_of(p[0], p[2]) and p[1][0] in diag_names and not p[1][1] and not p[1][2]
-                if ok and routine == "eig":
-                    out.append(Finding(False, n, "reconstruction %s uses V† as the inverse of the eigenvector matrix, but the decomposition is "
-                                                 "np.linalg.eig: its eigenvectors are not orthonormal in general (use eigh for the Hermitian "
-                                                 "matrix, or inv(V))" % fmt(p), "S1"))
-                elif ok:
-                    out.append(Finding(True, n, "%s with D = diag(%s)" % (fmt(p), w), "S1"))
-                else:
-                    why = "reconstruction is %s; a spectral reconstruction is V · diag(w) · V† (conjugate transpose on the right)" % fmt(p)
-                    out.append(Finding(False, n, why, "S1"))
+        # (a) reconstructions: matrix products containing V (after inlining the locals above)
+        for n in nodes:
+            if not _is_product_root(n):
+                continue
+            e = _Inl().visit(clone(n))
+            p = product(e)
+            if not any(b == V for b, _, _ in p):
+                continue
+            for x in ast.walk(n):
+                if isinstance(x, ast.Name) and x.id == V:
+                    handled.add(id(x))
+            mid_ok = len(p) == 3 and (p[1][0] in diag_names or p[1][0].replace(" ", "") in ("np.diag(%s)" % w, "numpy.diag(%s)" % w)) and not p[1][1] and not p[1][2]
+            ok = len(p) == 3 and p[0] == (V, False, False) and is_adjoint_of(p[0], p[2]) and mid_ok
+            if ok and routine == "eig":
+                out.append(Finding(False, n, "reconstruction %s uses V† as the inverse of the eigenvector matrix, but the decomposition is "
+                                             "np.linalg.eig: its eigenvectors are not orthonormal in general (use eigh for the Hermitian "
+                                             "matrix, or inv(V))" % fmt(p), "S1"))
+            elif ok:
+                out.append(Finding(True, n, "%s with D = diag(%s)" % (fmt(p), w), "S1"))
+            elif len(p) == 3 and p[0][0] == V and p[2][0] == V and mid_ok:
+                why = "reconstruction is %s; a spectral reconstruction is V · diag(w) · V† (conjugate transpose on the right)" % fmt(p)
+                out.append(Finding(False, n, why, "S1"))
+            else:
+                out.append(Finding(None, n, "product %s involving the eigenvector matrix is outside the recognised reconstruction forms" % fmt(p), "S1"))
         # (b) enumeration of eigenvectors
         for n in nodes:
             it = None
@@ -120,7 +181,6 @@ def check(f: Func) -> List[Finding]:
                     out.append(Finding(True, n, "column access %s" % unparse(n), "S1"))
                 else:
                     out.append(Finding(False, n, "%s takes a row (or element) of the eigenvector matrix; eigenvectors are columns" % unparse(n), "S1"))
-        # (c) outer products of single eigenvectors (names bound by the enumerations above)
         # other uses of V: shape queries are harmless; anything else is out of the fragment
         for u in uses_V:
             if id(u) in handled:
@@ -137,11 +197,9 @@ def check(f: Func) -> List[Finding]:
         for dname, dnode in diag_names.items():
             for s in stmts:
                 for n in ast.walk(s):
-                    tg = None
                     if isinstance(n, ast.Assign) and len(n.targets) == 1 and isinstance(n.targets[0], ast.Subscript) \
                             and isinstance(n.targets[0].value, ast.Name) and n.targets[0].value.id == dname:
-                        tg = n.targets[0]
-                        m = tg.slice
+                        m = n.targets[0].slice
                         good = isinstance(m, ast.Compare) and len(m.ops) == 1 and unparse(m.left) == dname and is_num(m.comparators[0], 0) \
                             and isinstance(m.ops[0], (ast.Lt, ast.LtE)) and is_num(n.value, 0)
                         if good:
@@ -151,7 +209,6 @@ def check(f: Func) -> List[Finding]:
                                                          "negative eigenvalues by 0 (`%s[%s < 0] = 0`)" % (unparse(n), dname, dname), "S2"))
                     elif isinstance(n, ast.AugAssign) and isinstance(n.target, (ast.Name, ast.Subscript)) and dname in unparse(n.target):
                         out.append(Finding(False, n, "the spectrum is modified in place by `%s`" % unparse(n), "S2"))
-            # clipping present at all?
     return out
 
 
@@ -192,4 +249,62 @@ def outer_products(f: Func) -> List[Finding]:
                 ok = wl[1] != wr[1]
                 out.append(Finding(ok, n, "column·row product of %s%s" % (wl[0], "" if ok else " without complex conjugation: |v><v| needs v v†, "
                                                                                   "this is v v^T"), "S1"))
+    return out
+
+
+def clipping(f: Func, w: str):
+    """How the eigenvalues `w` are clipped between the decomposition and the reconstruction.
+    Returns [(ok, node, text)]: ok True = negative values are replaced by 0; False = a different set of values is
+    replaced / a different replacement; empty list = no clipping construct found."""
+    out = []
+    nodes = list(own_nodes(f.node))
+    diag = {n.targets[0].id for n in nodes if isinstance(n, ast.Assign) and len(n.targets) == 1 and isinstance(n.targets[0], ast.Name)
+            and isinstance(n.value, ast.Call) and (dotted(n.value.func) or "").endswith("diag") and n.value.args and unparse(n.value.args[0]) == w}
+    holders = {w} | diag
+
+    def neg_test(t, elem_names):
+        """test `x < 0` / `x <= 0` / `0 > x` on one of the element expressions -> True; a different comparison with 0 -> False; else None"""
+        if isinstance(t, ast.Compare) and len(t.ops) == 1:
+            l, r, op = t.left, t.comparators[0], t.ops[0]
+            if unparse(l) in elem_names and is_num(r, 0):
+                return isinstance(op, (ast.Lt, ast.LtE))
+            if unparse(r) in elem_names and is_num(l, 0):
+                return isinstance(op, (ast.Gt, ast.GtE))
+        return None
+    for n in nodes:
+        # masked store  H[H < 0] = 0
+        if isinstance(n, ast.Assign) and len(n.targets) == 1 and isinstance(n.targets[0], ast.Subscript) and isinstance(n.targets[0].value, ast.Name) \
+                and n.targets[0].value.id in holders and isinstance(n.targets[0].slice, ast.Compare):
+            h = n.targets[0].value.id
+            r = neg_test(n.targets[0].slice, {h})
+            if r is not None:
+                out.append((bool(r) and is_num(n.value, 0), n, unparse(n)))
+        # element loop
+        if isinstance(n, ast.For):
+            elems = set()
+            idx = None
+            if isinstance(n.target, ast.Name) and unparse(n.iter).replace(" ", "") == "range(len(%s))" % w:
+                idx = n.target.id
+                elems = {"%s[%s]" % (w, idx)}
+            elif isinstance(n.target, ast.Tuple) and len(n.target.elts) == 2 and unparse(n.iter).replace(" ", "") == "enumerate(%s)" % w \
+                    and all(isinstance(x, ast.Name) for x in n.target.elts):
+                idx = n.target.elts[0].id
+                elems = {"%s[%s]" % (w, idx), n.target.elts[1].id}
+            if idx is None:
+                continue
+            for st in n.body:
+                if isinstance(st, ast.If):
+                    r = neg_test(st.test, elems)
+                    stores = [x for x in st.body if isinstance(x, ast.Assign) and unparse(x.targets[0]) == "%s[%s]" % (w, idx)]
+                    if r is not None and stores:
+                        out.append((bool(r) and is_num(stores[0].value, 0) and not st.orelse, st, unparse(st.test)))
+        # functional forms
+        if isinstance(n, ast.Assign) and len(n.targets) == 1 and isinstance(n.targets[0], ast.Name) and isinstance(n.value, ast.Call):
+            t = unparse(n.value).replace(" ", "")
+            good = ("np.clip(%s,0,None)" % w, "np.maximum(%s,0)" % w, "np.maximum(0,%s)" % w, "%s.clip(min=0)" % w, "%s.clip(0)" % w,
+                    "np.where(%s<0,0,%s)" % (w, w), "np.clip(%s,a_min=0,a_max=None)" % w)
+            if t in good:
+                out.append((True, n, unparse(n)))
+            elif t.startswith(("np.clip(%s" % w, "np.minimum(%s" % w, "np.where(%s" % w, "np.abs(%s" % w, "np.maximum(%s" % w)):
+                out.append((False, n, unparse(n)))
     return out
